@@ -176,39 +176,52 @@ TypeOK == /\ \A b \in blocks : b.mint < b.maxt /\ b.level >= 1 /\ b.tombs >= 0 /
           /\ \A a, b \in blocks : a.id = b.id => a = b
           /\ phase \in {"grow", "compact"}
 
-PlanSet == Range(ThePlan.dirs)
+\* The named properties are operators of the plan pl so that the quick configurations can evaluate the
+\* (expensive) transcription once per state (AllOf); the big/live configurations list them one by one.
+PS(pl) == Range(pl.dirs)
 
 \* every plan is one of the three kinds of the statement (or the recorded finding KF-C08-1)
-PlanLegal == \/ LegalPlan(PlanSet, blocks, ranges, overlap)
-             \/ KF_C08_1(PlanSet, blocks, ranges, overlap)
+PlanLegalP(pl) == \/ LegalPlan(PS(pl), blocks, ranges, overlap)
+                  \/ KF_C08_1(PS(pl), blocks, ranges, overlap)
 
 \* the transcription agrees with itself about which kind it found
-KindOK == LET pl == ThePlan IN
-          CASE pl.kind = "none"    -> pl.dirs = <<>>
-            [] pl.kind = "overlap" -> IsOverlapPlan(PlanSet, overlap)
-            [] pl.kind = "range"   -> IsRangePlan(PlanSet, blocks, ranges) \/ KF_C08_1(PlanSet, blocks, ranges, overlap)
-            [] pl.kind = "tomb"    -> IsTombPlan(PlanSet)
+KindOKP(pl) ==
+  CASE pl.kind = "none"    -> pl.dirs = <<>>
+    [] pl.kind = "overlap" -> IsOverlapPlan(PS(pl), overlap)
+    [] pl.kind = "range"   -> IsRangePlan(PS(pl), blocks, ranges) \/ KF_C08_1(PS(pl), blocks, ranges, overlap)
+    [] pl.kind = "tomb"    -> IsTombPlan(PS(pl))
 
 \* stale-series, selected-series and regular blocks are never planned together
-NeverMixesClasses == SameClass(PlanSet)
+NeverMixesClassesP(pl) == SameClass(PS(pl))
 
 \* range plans never contain the newest block of the class nor a block whose compaction failed
-NewestAndFailedExcluded ==
-  ThePlan.kind = "range" => /\ ExcludesNewest(PlanSet, blocks)
-                            /\ \A b \in PlanSet : ~b.failed
+NewestAndFailedExcludedP(pl) ==
+  pl.kind = "range" => /\ ExcludesNewest(PS(pl), blocks)
+                       /\ \A b \in PS(pl) : ~b.failed
 
 \* partial-view blocks are only planned when there is nothing to do for the regular ones
-RegularNotStarved ==
-  (PlanSet # {} /\ \E b \in PlanSet : ClassOf(b) # "reg") => PlanClass(OfClass(blocks, "reg"), ranges, overlap).dirs = <<>>
+RegularNotStarvedP(pl) ==
+  (\E b \in PS(pl) : ClassOf(b) # "reg") => PlanClass(OfClass(blocks, "reg"), ranges, overlap).dirs = <<>>
 
-\* merged metadata: hints, time range covering the inputs, level, parents
-MergedOK ==
-  LET pl == ThePlan IN
+\* merged metadata: hints, time range covering the inputs, level, sources
+MergedOKP(pl) ==
   pl.dirs # <<>> =>
     LET m == Merge(nextId, pl.dirs) IN
-    /\ HintsOK(m, PlanSet)
-    /\ m.ooo = (\A b \in PlanSet : b.ooo)
-    /\ \A b \in PlanSet : m.mint <= b.mint /\ b.maxt <= m.maxt /\ m.level > b.level /\ b.src \subseteq m.src
+    /\ HintsOK(m, PS(pl))
+    /\ m.ooo = (\A b \in PS(pl) : b.ooo)
+    /\ \A b \in PS(pl) : m.mint <= b.mint /\ b.maxt <= m.maxt /\ m.level > b.level /\ b.src \subseteq m.src
+
+PlanLegal               == PlanLegalP(ThePlan)
+KindOK                  == KindOKP(ThePlan)
+NeverMixesClasses       == NeverMixesClassesP(ThePlan)
+NewestAndFailedExcluded == NewestAndFailedExcludedP(ThePlan)
+RegularNotStarved       == RegularNotStarvedP(ThePlan)
+MergedOK                == MergedOKP(ThePlan)
+
+\* the conjunction of the six, with the plan computed once
+AllOf == LET pl == ThePlan IN
+         /\ PlanLegalP(pl) /\ KindOKP(pl) /\ NeverMixesClassesP(pl)
+         /\ NewestAndFailedExcludedP(pl) /\ RegularNotStarvedP(pl) /\ MergedOKP(pl)
 
 \* convergence: every Compact step strictly decreases the variant, which is bounded below
 RankDecreases == [][blocks' # blocks /\ phase' = "compact" => Rank(blocks') < Rank(blocks)]_vars
@@ -226,7 +239,7 @@ NoWiden == [][phase' = "compact" /\ blocks' # blocks =>
 \* coverage class of a directory state: mirrors the branch structure of plan/planClass/selectDirs
 Class ==
   LET pl == ThePlan
-      P  == PlanSet
+      P  == PS(ThePlan)
       ds == IF P = {} THEN <<>> ELSE pl.dirs
   IN <<ranges, overlap, pl.kind, Len(pl.dirs), NClasses(blocks), Cardinality(blocks),
        IF P = {} THEN "-" ELSE ClassOf(ds[1]),
